@@ -44,6 +44,7 @@ type eCase struct {
 	Batch   int            `json:"batch,omitempty"`   // > 1: documents are handed to AddDocument in groups of up to Batch
 	Pre     []eDoc         `json:"pre,omitempty"`     // an earlier generation of the same builder: these documents are added, the index is built and dropped, the builder is Reset
 	Rebuild int            `json:"rebuild,omitempty"` // > 0: BuildIndex is also called after the first Rebuild documents (no Reset); the final build is the one queried
+	Dump    bool           `json:"dump,omitempty"`    // the debug dumps of the built index (DumpEntries, DumpIndexInfo: what PrintIndexEntries / PrintIndexInfo print) are called before the queries; they are also called when some query carries the debug options
 	Warm    int            `json:"warm,omitempty"`    // > 0: the builder has a cache provider (threshold = Warm values) that an EARLIER builder filled with the same documents: the queried index is built from the cache
 }
 
@@ -503,6 +504,15 @@ func execE2E(raw json.RawMessage) (res execResult, err error) {
 		docLits = append(docLits, fmt.Sprintf("(%s, %s)", c.Docs[i].coq(), outs[i]))
 	}
 	index := b.BuildIndex()
+	anyDebug := c.Dump
+	for i := range c.Queries {
+		anyDebug = anyDebug || c.Queries[i].Debug
+	}
+	if anyDebug { // the (read-only) debug dumps of a built index, before it is queried and before its entries are read
+		var sb strings.Builder
+		safeCall(func() { index.DumpEntries(&sb) })
+		safeCall(func() { index.DumpIndexInfo(&sb) })
+	}
 	state := "None"
 	if es, z, ok := indexEntries(index); ok {
 		state = fmt.Sprintf("(Some (%s, %s))", nlist(es), nlist(z))
